@@ -182,6 +182,38 @@ impl Drop for PSock {
     }
 }
 
+/// connect to a Unix stream socket without ever blocking (a listener that no longer accepts lets a blocking
+/// connect hang for ever once its backlog is full); None if the connection is not established at once
+fn connect_unix_nonblocking(path: &std::path::Path) -> Option<UnixStream> {
+    use std::os::fd::FromRawFd;
+    use std::os::unix::ffi::OsStrExt;
+    unsafe {
+        let fd = libc::socket(libc::AF_UNIX, libc::SOCK_STREAM | libc::SOCK_NONBLOCK | libc::SOCK_CLOEXEC, 0);
+        if fd < 0 {
+            return None;
+        }
+        let mut addr: libc::sockaddr_un = std::mem::zeroed();
+        addr.sun_family = libc::AF_UNIX as u16;
+        let b = path.as_os_str().as_bytes();
+        if b.len() >= addr.sun_path.len() {
+            libc::close(fd);
+            return None;
+        }
+        for (i, c) in b.iter().enumerate() {
+            addr.sun_path[i] = *c as libc::c_char;
+        }
+        let r = libc::connect(fd, &addr as *const _ as *const libc::sockaddr, std::mem::size_of::<libc::sockaddr_un>() as u32);
+        if r != 0 {
+            libc::close(fd);
+            return None;
+        }
+        // back to blocking mode (reads are bounded by the read time-out)
+        let fl = libc::fcntl(fd, libc::F_GETFL);
+        libc::fcntl(fd, libc::F_SETFL, fl & !libc::O_NONBLOCK);
+        Some(UnixStream::from_raw_fd(fd))
+    }
+}
+
 fn wait_readable(fds: &[i32], timeout: Duration) {
     let mut p: Vec<libc::pollfd> = fds.iter().map(|fd| libc::pollfd { fd: *fd, events: libc::POLLIN, revents: 0 }).collect();
     unsafe {
@@ -314,7 +346,15 @@ impl World {
         );
         std::fs::write(dir.join("statime.toml"), cfg).map_err(|e| e.to_string())?;
         let log = std::fs::File::create(dir.join("daemon.log")).map_err(|e| e.to_string())?;
-        let daemon = Command::new(daemon_binary()).arg("-c").arg(dir.join("statime.toml")).stdin(Stdio::null()).stdout(log.try_clone().map_err(|e| e.to_string())?).stderr(log).spawn().map_err(|e| format!("spawn daemon: {}", e))?;
+        let mut dcmd = Command::new(daemon_binary());
+        unsafe {
+            use std::os::unix::process::CommandExt;
+            dcmd.pre_exec(|| {
+                libc::prctl(libc::PR_SET_PDEATHSIG, libc::SIGKILL);
+                Ok(())
+            });
+        }
+        let daemon = dcmd.arg("-c").arg(dir.join("statime.toml")).stdin(Stdio::null()).stdout(log.try_clone().map_err(|e| e.to_string())?).stderr(log).spawn().map_err(|e| format!("spawn daemon: {}", e))?;
         // "a" is the parent's segment, "b" the other one
         let (ifa, ifb) = if variant.swap { ("b1", "a1") } else { ("a1", "b1") };
         let a1 = PSock::open(ifa, udp)?;
@@ -498,7 +538,7 @@ impl World {
     }
 
     pub fn observe(&self) -> Option<statime_linux::metrics::exporter::ObservableState> {
-        let mut s = UnixStream::connect(self.dir.join("obs.sock")).ok()?;
+        let mut s = connect_unix_nonblocking(&self.dir.join("obs.sock"))?;
         s.set_read_timeout(Some(Duration::from_millis(500))).ok()?;
         let mut v = vec![];
         s.read_to_end(&mut v).ok()?;
@@ -846,7 +886,15 @@ impl RealExporter {
         let addr: std::net::SocketAddr = format!("127.0.0.1:{}", port).parse().unwrap();
         let cfg = w.dir.join("exporter.toml");
         std::fs::write(&cfg, format!("loglevel = \"error\"\n[[port]]\ninterface = \"lo\"\n\n[observability]\nobservation-path = \"{}\"\nmetrics-exporter-listen = \"{}\"\n", w.dir.join("obs.sock").display(), addr)).map_err(|e| e.to_string())?;
-        let child = Command::new(&bin).arg("-c").arg(&cfg).stdin(Stdio::null()).stdout(Stdio::null()).stderr(Stdio::null()).spawn().map_err(|e| e.to_string())?;
+        let mut ecmd = Command::new(&bin);
+        unsafe {
+            use std::os::unix::process::CommandExt;
+            ecmd.pre_exec(|| {
+                libc::prctl(libc::PR_SET_PDEATHSIG, libc::SIGKILL);
+                Ok(())
+            });
+        }
+        let child = ecmd.arg("-c").arg(&cfg).stdin(Stdio::null()).stdout(Stdio::null()).stderr(Stdio::null()).spawn().map_err(|e| e.to_string())?;
         let mut e = RealExporter { child, addr };
         let t0 = Instant::now();
         loop {
@@ -914,9 +962,26 @@ pub fn case_c19(w: &mut World, exp: &RealExporter, t: &mut Tape) -> E2eOut {
     // the harness also answers the timing exchange (symmetric link of 2 ms), so that the slave port has estimates
     w.emulate_master = !w.variant.p2p;
     let resps0 = w.delay_resps_sent;
-    let log_mark = std::fs::metadata(w.dir.join("daemon.log")).map(|m| m.len()).unwrap_or(0);
     w.obs_problems.clear();
     w.poll_obs_ms = Some(20);
+    if t.chance(1, 3) {
+        // role changes under observation: the parent falls silent until the port has taken over, then returns;
+        // every observation polled meanwhile must be of one instant (obs_invariants)
+        let s0 = Instant::now();
+        w.next_parent = s0 + Duration::from_millis(1300);
+        w.run_until(s0 + Duration::from_millis(1295));
+        w.next_parent = Instant::now();
+        let r0 = Instant::now();
+        while r0.elapsed() < Duration::from_millis(1500) {
+            let d = Instant::now() + Duration::from_millis(100);
+            w.run_until(d);
+            if w.steady() {
+                break;
+            }
+        }
+        out.label("daemon:role-changes-observed");
+    }
+    let log_mark = std::fs::metadata(w.dir.join("daemon.log")).map(|m| m.len()).unwrap_or(0);
     let d = Instant::now() + Duration::from_millis(if t.chance(1, 2) { 4 * ANN_MS + 40 } else { 1200 });
     w.run_until(d);
     if !w.alive() {
@@ -1354,6 +1419,10 @@ pub fn case_c12(w: &mut World, t: &mut Tape) -> E2eOut {
 
 /// `vcheck E2E-WORKER <prop> <seed> <first> <count> <stride> [tape.json]`
 pub fn worker_main(args: &[String]) -> i32 {
+    // die with the parent check process (e.g. when its watchdog ends it)
+    unsafe {
+        libc::prctl(libc::PR_SET_PDEATHSIG, libc::SIGKILL);
+    }
     let prop = args.get(0).cloned().unwrap_or_default();
     let seed: u64 = args.get(1).and_then(|s| s.parse().ok()).unwrap_or(0);
     let first: u64 = args.get(2).and_then(|s| s.parse().ok()).unwrap_or(0);
@@ -1406,6 +1475,9 @@ pub fn worker_main(args: &[String]) -> i32 {
             }
         };
         let mut r = r;
+        if !r.out.render.is_object() {
+            r.out.render = json!({});
+        }
         if let Some(o) = r.out.render.as_object_mut() {
             o.insert("path_trace".into(), json!(path_trace));
             o.insert("transport".into(), json!(if udp { "udp-ipv4" } else { "ethernet" }));
